@@ -452,6 +452,9 @@ def run(tier, v):
         cov["action_counts"] = vlib.action_counts(c["out"])
         cov["actions_never_fired"] = [a for a, n in cov["action_counts"].items() if n[1] == 0]
     pool.shutdown()
+    # extension X02 (spec/DragScan.tla, spec/Prompt.tla): the two input-side sub-machines Filter.tla abstracts --
+    # the byte-level drag path scanners and the stop prompt's key translation; observation-only for C05
+    vlib.run_extension("x02", tier, cov)
     return cov
 
 
